@@ -209,4 +209,102 @@ Proof.
              fuel cf ifd ifg num den sd s3 rs cells4 Hfd Hcd Hnod Hfill Hinl).
 Qed.
 
+
+(* ---- a point located through the lattice ---------------------------------------------------------
+   container [key] (level 0, FILL = the lattice's universe U) -> element cell [ke] -> either the
+   element keeps the lattice cell's own material (leaf), or it is filled with universe u and the
+   descent goes on below a cell c of u *)
+Notation Located := (Located T surf P tr_empty inv sense).
+Notation Represents := (Represents T surf P tr_empty inv sense).
+
+Lemma Outcome_located : forall sd du sf key ks p ch,
+  Outcome sd du sf key ks -> Located sd du key p ch ->
+  exists k ncl lcl, In k ks /\ dget k (s_cells sf) = Some ncl /\
+    Den sf p (TRef k) true /\ c_fill ncl = None /\ c_orig ncl = prov ch /\
+    dget (last ch 0) (s_cells sd) = Some lcl /\ c_mat ncl = c_mat lcl /\ c_rho ncl = c_rho lcl.
+Proof.
+  intros sd du sf key ks p ch (chs & _ & HRep & HLoc) HL.
+  destruct (HLoc p ch HL) as (Hin & HV).
+  destruct (L6.Forall2_pick _ _ _ _ _ HRep HV Hin)
+    as (k & Hk & (ncl & lcl & R1 & R2 & R3 & R4 & R5 & R6 & _) & (V1 & _)).
+  exists k, ncl, lcl. repeat split; try assumption. apply V1. reflexivity.
+Qed.
+
+Theorem located_through_lattice :
+  forall fuel cf ifd ifg num den (s0 s1 s2 s3 : state) rs cells4 latkey lcl
+         (elems : list relem) keys,
+  fresh_ok s0 -> s_cache s0 = [] -> NoDup (map fst (s_cells s0)) -> all_ref_free s0 -> no_orig s0 ->
+  trcl_phase fuel (map fst (s_cells s0)) s0 = Ok s1 ->
+  dget latkey (s_cells s1) = Some lcl ->
+  Forall (fun e : relem => M6.is_nil (M6.ne_trnsf e) = false) elems ->
+  develop_state fuel latkey elems s1 = Ok (keys, s2) ->
+  fill_phase fuel cf ifd ifg (del_cell s2 latkey) = Ok (rs, s3) ->
+  inline_cells T fuel num den (s_cells s3) = Ok cells4 ->
+  let sd := del_cell s2 latkey in
+  let du := by_universe (s_cells sd) in
+  let sf := set_cells s3 cells4 in
+  forall key kcl U (e : relem) ke ecl p,
+  In key (fill_keys (s_cells sd)) ->
+  dget key (s_cells sd) = Some kcl -> c_fill kcl = Some U ->
+  In (e, ke) (combine elems keys) ->
+  dget ke (s_cells sd) = Some ecl -> c_univ ecl = U ->
+  (* p is in the container, and the point in the container's filling frame is in the element *)
+  Den sd p (c_geom kcl) true ->
+  Den s1 (inv (M6.ne_trnsf e) (frame T P tr_empty inv kcl p)) (TRef latkey) true ->
+  exists ks, In ks rs /\
+  (* own universe: the element is a leaf with the lattice cell's material *)
+  (M6.ne_fill e = None ->
+     exists k ncl, In k ks /\ dget k (s_cells sf) = Some ncl /\ Den sf p (TRef k) true /\
+       c_fill ncl = None /\ c_orig ncl = prov [key; ke] /\
+       c_mat ncl = c_mat lcl /\ c_rho ncl = c_rho lcl) /\
+  (* another universe u: below a cell c of u that locates the point pulled back by the element's
+     fill transformation *)
+  (forall u c ch, M6.ne_fill e = Some u -> M6.is_nil (M6.ne_filltr e) = false ->
+     In c (du_get u du) ->
+     Located sd du c (inv (M6.ne_filltr e) (frame T P tr_empty inv kcl p)) ch ->
+     exists k ncl lfl, In k ks /\ dget k (s_cells sf) = Some ncl /\ Den sf p (TRef k) true /\
+       c_fill ncl = None /\ c_orig ncl = prov (key :: ke :: ch) /\
+       dget (last ch 0) (s_cells sd) = Some lfl /\ c_mat ncl = c_mat lfl /\ c_rho ncl = c_rho lfl).
+Proof.
+  intros fuel cf ifd ifg num den s0 s1 s2 s3 rs cells4 latkey lcl elems keys
+         Hf Hc Hnd Hrf Hno Ht Hlat Hne Hdev Hfill Hinl sd du sf key kcl U e ke ecl p
+         Hkey Hkcl HU Hin Hecl HeU Hcont Helem.
+  destruct (pipeline_with_lattice fuel cf ifd ifg num den s0 s1 s2 s3 rs cells4 latkey lcl elems keys
+              Hf Hc Hnd Hrf Hno Ht Hlat Hne Hdev Hfill Hinl) as (_ & _ & HE & HO).
+  fold sd in HE, HO. fold du in HO. fold sf in HO.
+  destruct (Forall2_In_l _ _ _ _ HO Hkey) as (ks & Hks & HOut).
+  exists ks. split; [exact Hks|].
+  (* the element's record *)
+  assert (HEl : ElemOf s1 latkey lcl sd e ke).
+  { clear - HE Hin. induction HE as [|e0 k0 l l' H0 _ IH]; [destruct Hin|].
+    cbn [combine] in Hin. destruct Hin as [E|Hin]; [inversion E; subst; exact H0 | exact (IH Hin)]. }
+  destruct HEl as (cl & Hcl & _ & Ef & Eft & Em & Er & Hdu & HD).
+  rewrite Hecl in Hcl. inversion Hcl; subst cl. rewrite HeU in Hdu. fold du in Hdu.
+  set (p' := frame T P tr_empty inv kcl p) in *.
+  assert (Hin_e : Den sd p' (c_geom ecl) true).
+  { pose proof (HD p' true Helem) as D. destruct (Den_ref_inv T surf P sense _ _ _ _ D) as (c0 & Hc0 & Dg).
+    rewrite Hecl in Hc0. inversion Hc0; subst. exact Dg. }
+  split.
+  - intros Hfe.
+    assert (HL : Located sd du key p [key; ke]).
+    { unfold Spec.Located. change true with (true && true).
+      eapply LBFill with (cl := kcl) (u := U) (c := ke); [exact Hkcl | exact HU | exact Hdu | exact Hcont|].
+      eapply LBLeaf with (cl := ecl); [exact Hecl | rewrite Ef; exact Hfe | exact Hin_e]. }
+    destruct (Outcome_located _ _ _ _ _ _ _ HOut HL) as (k & ncl & lfl & A1 & A2 & A3 & A4 & A5 & A6 & A7 & A8).
+    cbn [last] in A6. rewrite Hecl in A6. inversion A6; subst lfl.
+    exists k, ncl. repeat split; try assumption; congruence.
+  - intros u c ch Hfu Hnn Hc' HLc.
+    assert (Hframe : frame T P tr_empty inv ecl p' = inv (M6.ne_filltr e) p').
+    { unfold Spec.frame. rewrite Eft, Hnn. reflexivity. }
+    assert (HL : Located sd du key p (key :: ke :: ch)).
+    { unfold Spec.Located. change true with (true && (true && true)).
+      eapply LBFill with (cl := kcl) (u := U) (c := ke); [exact Hkcl | exact HU | exact Hdu | exact Hcont|].
+      eapply LBFill with (cl := ecl) (u := u) (c := c);
+        [exact Hecl | rewrite Ef; exact Hfu | exact Hc' | exact Hin_e|].
+      unfold Spec.Located in HLc. rewrite <- Hframe in HLc. exact HLc. }
+    destruct (Outcome_located _ _ _ _ _ _ _ HOut HL) as (k & ncl & lfl & A1 & A2 & A3 & A4 & A5 & A6 & A7 & A8).
+    assert (Hlast : last (key :: ke :: ch) 0 = last ch 0) by (destruct HLc; reflexivity).
+    rewrite Hlast in A6. exists k, ncl, lfl. repeat split; assumption.
+Qed.
+
 End LinkLattice.
